@@ -48,6 +48,21 @@ def forked_check(assertions, timeout_ms):
     import os
     import select
     import signal
+    # purely linear queries never reach nlsat: decide them in-process (a fork of this process is expensive)
+    try:
+        ab = _Abstractor()
+        for a in assertions:
+            ab.ab(a)
+        linear = not ab.vars
+    except Exception:
+        linear = False
+    if linear:
+        s = z3.Solver()
+        s.set("timeout", int(timeout_ms))
+        for a in assertions:
+            s.add(a)
+        r = guarded_check(s, timeout_ms)
+        return r, (_model_dict(s.model()) if r == 'sat' else None)
     rfd, wfd = os.pipe()
     pid = os.fork()
     if pid == 0:
